@@ -30,6 +30,11 @@ package validation
 //@   callsite[c39-single-key] Verify#1 requires arg0 == sig.PubKeys[0]
 //@   callsite[c39-single-hash] Verify#1 requires len(arg1) == 32 && packbytes(arg1, 0, 32) == tx.hash
 //@   callsite[c39-single-sig] Verify#1 requires arg2 == sig.SigData[0]
+//@   -- the keys of an m-of-n entry are pairwise distinct: the same key listed twice would count its one signature twice
+//@   ghost var gdistinct bool = false
+//@   set before "m := int(sig.M)" : gdistinct := false
+//@   set after "if hasDuplicateKeys(sig.PubKeys)" : gdistinct := true
+//@   callsite[c39-distinct-keys] VerifyMultiSignature#1 requires gdistinct
 //@   callsite[c39-multi] VerifyMultiSignature#1 requires len(arg0) == 32 && packbytes(arg0, 0, 32) == tx.hash && arg1 == sig.PubKeys && arg2 == int(sig.M) && arg3 == sig.SigData
 //@   loop 1 invariant !isnil(address) && len(tx.Sigs) <= 16
 //@   loop 1 invariant forall i int :: 0 <= i && i < it1 ==> sel(okE, uint64(i))
